@@ -16,11 +16,12 @@ from sim.world import ELEMENT_KW, attempt, build, descendants, live_resolve, nor
 PROP = "C13"
 ENGINE = "T"
 RULE = (
-    "concurrent mode: a shared tree, 2-4 threads x 1-4 ops (validation calls and literal-keyword reassignments; no two "
-    "threads assign the same (element, keyword)) from Random(f'{VERIF_SEED}:C13T:{i}') under the baton-passing scheduler. "
+    "concurrent mode: a shared tree, 2-4 threads x 1-4 ops (validation calls, literal-keyword reassignments, property "
+    "table edits; no two threads write the same (element, keyword) or the same property table) from Random(f'{VERIF_SEED}:C13T:{i}') under the baton-passing scheduler. "
     "Oracle at quiescence: for probe values aimed at every reconfigured element and at the root, (verdict, normalised "
     "result) on the live tree equals that of build(M_final) - same process and pristine process - where M_final is the "
-    "model with every reassignment applied. Non-trivial run: >=1 reassignment pre-empted by / overlapping a validation "
+    "model with every reassignment applied; a validation that overlapped <=3 reconfigurations must return a verdict "
+    "valid under one combination of their old/new states. Non-trivial run: >=1 reassignment pre-empted by / overlapping a validation "
     "of the same element in another thread, and >=1 probe whose verdict differs between initial and final configuration."
 )
 COMPONENTS = {
@@ -74,7 +75,7 @@ def _final_model(case):
     model = copy.deepcopy(case["world"])
     for ops in case["threads"]:
         for op in ops:
-            if op["op"] == "set_kw":
+            if op["op"] != "call":
                 c13.apply_model(model, op)
     return model
 
@@ -103,10 +104,47 @@ def gen_case(rng):
     threads = []
     touched = []
     scratch = build(model)
+    props_owner = {}  # str(path) -> tid : one thread owns a node's property table
     for tid in range(n_threads):
         ops = []
         for _ in range(rng.randint(1, 4)):
-            if nodes and rng.random() < 0.5:
+            roll_kind = rng.random()
+            if nodes and roll_kind < 0.15:
+                # add / replace / remove / reassign properties (one owner per node,
+                # and nobody else works below that node)
+                cands = [
+                    n for n in nodes
+                    if (n[1] == "class" or n[2]["k"] == "Element")
+                    and props_owner.get(str(n[0]), tid) == tid
+                    and not any(
+                        str(p).startswith(str(n[0])[:-1]) and str(p) != str(n[0])
+                        for p in touched
+                    )
+                ]
+                if cands:
+                    path, kind, node = rng.choice(cands)
+                    op = c13.gen_reconfig_for(rng, wg, model, path, kind, node, True)
+                    if op is not None:
+                        try:
+                            trial = copy.deepcopy(model)
+                            c13.apply_model(trial, op)
+                            build(trial)
+                            c13.apply_live(build(model), op)
+                        except Exception:  # pylint: disable=broad-except
+                            op = None
+                    if op is not None:
+                        c13.apply_model(model, op)  # later ops of this thread see it
+                        scratch = build(model)
+                        props_owner[str(path)] = tid
+                        ops.append(op)
+                        if path not in touched:
+                            touched.append(path)
+                        nodes = [
+                            n for n in nodes
+                            if not (str(n[0]).startswith(str(path)[:-1]) and str(n[0]) != str(path))
+                        ]
+                continue
+            if nodes and roll_kind < 0.55:
                 path, kind, node = rng.choice(nodes if not touched or rng.random() < 0.5 else [n for n in nodes if n[0] in touched] or nodes)
                 kname = "Class" if kind == "class" else node["k"]
                 kws = _literal_kws(kname)
@@ -188,19 +226,80 @@ def exec_case(case, log, stats):
     tprog.schedule_stats(stats, sch, case)
     overlap = 0
     spans = []
+    record_out = {}
     for tid, ops in enumerate(case["threads"]):
         for idx, op in enumerate(ops):
             start, end, out = record[(tid, idx)]
+            record_out[(tid, id(op))] = out
             log.add(tid, idx, op["op"], op["path"], op.get("kw"), out)
             spans.append((tid, op, start, end))
-            stats.inc("set_kw_ops" if op["op"] == "set_kw" else "call_ops")
+            stats.inc("call_ops" if op["op"] == "call" else op["op"] + "_ops")
     for tid, op, start, end in spans:
-        if op["op"] != "set_kw":
+        if op["op"] == "call":
             continue
         for tid2, op2, start2, end2 in spans:
             if tid2 != tid and op2["op"] == "call" and start2 <= end and start <= end2:
                 overlap += 1
     stats.inc("reassignments_overlapping_a_validation", overlap)
+    # ---- validations that ran while others reconfigured ---------------------
+    # Every reconfiguration is a single attribute rebinding, so a validation
+    # sees, for each overlapping reconfiguration, either its old or its new
+    # state: its verdict must be the verdict under one of those combinations.
+    import itertools
+
+    reconf = sorted(
+        [x for x in spans if x[1]["op"] != "call"], key=lambda x: (x[2], x[0])
+    )
+    props_paths = [str(x[1]["path"]) for x in reconf if x[1]["op"] != "set_kw"]
+    for tid, op, start, end in spans:
+        if op["op"] != "call":
+            continue
+        verdict = record_out[(tid, id(op))]
+        if any(
+            str(op["path"]).startswith(p[:-1]) and str(op["path"]) != p for p in props_paths
+        ):
+            stats.inc("inflight_not_judged(target below a reassigned property table)")
+            continue
+        before = [x for x in reconf if x[3] < start]
+        over = [x for x in reconf if not x[3] < start and x[2] <= end]
+        if len(over) > 3:
+            stats.inc("inflight_not_judged(>3 overlapping reconfigurations)")
+            continue
+        if any(x[1]["op"] in ("set_prop", "del_prop") for x in over):
+            # in-place edits of a dict that another thread iterates are plain
+            # Python semantics (RuntimeError: dictionary changed size); no
+            # property promises anything about them.  Attribute rebindings
+            # (keyword assignment, `properties = {...}`) are atomic and judged.
+            stats.inc("inflight_not_judged(overlaps an in-place property-table edit)")
+            continue
+        allowed = set()
+        for size in range(len(over) + 1):
+            for subset in itertools.combinations(over, size):
+                chosen = sorted(before + list(subset), key=lambda x: (x[2], x[0]))
+                try:
+                    model_c = copy.deepcopy(case["world"])
+                    for item in chosen:
+                        c13.apply_model(model_c, item[1])
+                    target = live_resolve(build(model_c), op["path"])
+                except Exception:  # pylint: disable=broad-except
+                    continue
+                allowed.add(attempt(target, copy.deepcopy(op["arg"]["v"]))[0])
+        stats.inc("inflight_validations_judged")
+        if over:
+            stats.inc("inflight_validations_overlapping_a_reconfiguration")
+        if allowed and verdict not in allowed:
+            return {
+                "invariant": "concurrent_verdict_unexplained",
+                "op_index": None,
+                "detail": {
+                    "call": op,
+                    "verdict": verdict,
+                    "allowed": sorted(allowed),
+                    "overlapping_reconfigurations": [x[1] for x in over],
+                    "steps": sch.step,
+                    "preemptions": sch.switches,
+                },
+            }
     model = _final_model(case)
     live_out = []
     for probe in case["probes"]:
@@ -256,6 +355,16 @@ def valid_case(case):
                     return False
             elif op.get("op") == "call":
                 if not isinstance(op.get("arg"), dict) or "v" not in op["arg"]:
+                    return False
+            elif op.get("op") in ("set_prop", "del_prop", "replace_props"):
+                key = (str(op.get("path")), "<properties>")
+                if seen.setdefault(key, tid) != tid:
+                    return False
+                try:
+                    kind, node = spec_resolve(case["world"], op["path"])
+                except Exception:  # pylint: disable=broad-except
+                    return False
+                if kind == "class" and descendants(case["world"], node["id"]):
                     return False
             else:
                 return False
